@@ -23,8 +23,10 @@ def parseOp (s : String) : Option Op :=
 def handle (f : List String) : String :=
   match f with
   | ["fs", opsS] =>
-    match (opsS.splitOn ";").mapM parseOp with
-    | some ops => showTuple (run cfg start ops).delivered
+    let parts := opsS.splitOn ";"
+    let stopped := parts.getLast? == some "stop"
+    match (if stopped then parts.dropLast else parts).mapM parseOp with
+    | some ops => showTuple (if stopped then stop (run cfg start ops) else run cfg start ops).delivered
     | none => "BAD-CASE"
   | _ => "BAD-CASE"
 
